@@ -12,6 +12,7 @@ mod runs;
 mod xsolve;
 mod lu;
 mod xpy;
+mod families;
 
 fn main() {
     let args: Vec<String> = std::env::args().collect();
@@ -29,6 +30,8 @@ fn main() {
         "xsolve" => xsolve::run(rest),
         "xlu" => lu::run(rest),
         "xpy" => xpy::run(rest),
+        "sym-check" => families::sym(rest),
+        "mass-check" => families::mass(rest),
         "event-check" => monitors::events(rest),
         "teval-check" => monitors::teval(rest),
         "interval-check" => runs::interval(rest),
